@@ -19,7 +19,7 @@ def jobs(ctx, rel):
                 ["--mode", "pct", "--scenario", "all", "--runs", "300", "--depth", "3", "--seed", str(ctx.seed)]]
     two = ",".join(n for n, t in sc.scenarios(rel) if t <= 2)
     return [["--mode", "exhaustive", "--scenario", "all", "--preemptions", "3"],
-            ["--mode", "exhaustive", "--scenario", two, "--preemptions", "5"],
+            ["--mode", "exhaustive", "--scenario", two, "--preemptions", "5", "--max-runs", "100000"],
             ["--mode", "pct", "--scenario", "all", "--runs", "20000", "--depth", "4", "--seed", str(ctx.seed)]]
 
 
